@@ -460,7 +460,16 @@ pub fn to_duration(num: &Number) -> Result<Duration, String> {
     let ms = &num.value * &Numeric::from(1000);
     let (ms, rem) = ms.div_rem(&Numeric::from(1));
     let ns = &rem * &Numeric::from(1_000_000);
-    Ok(Duration::milliseconds(ms.to_int().unwrap()) + Duration::nanoseconds(ns.to_int().unwrap()))
+    let ms = ms
+        .to_int()
+        .and_then(Duration::try_milliseconds)
+        .ok_or_else(|| "Implementation error: Number is out of range".to_string())?;
+    let ns = ns
+        .to_int()
+        .map(Duration::nanoseconds)
+        .ok_or_else(|| "Implementation error: Number is out of range".to_string())?;
+    ms.checked_add(&ns)
+        .ok_or_else(|| "Implementation error: Number is out of range".to_string())
 }
 
 pub fn from_duration(duration: &Duration) -> Result<Number, String> {
